@@ -1184,6 +1184,10 @@ class Exec:
                 self.ctx.add_side(T.and_(T.le(r, x), T.le(r, y)))
             elif op == "BitXor":
                 self.ctx.add_side(T.le(r, T.add(x, y)))
+        elif op == "BitAnd":
+            # two's complement: for non-negative operands the result is non-negative and not above either operand
+            self.ctx.add_side(T.implies(T.le(0, x), T.and_(T.le(0, r), T.le(r, x))))
+            self.ctx.add_side(T.implies(T.le(0, y), T.and_(T.le(0, r), T.le(r, y))))
         return r
 
     def unop(self, op, a, dty):
